@@ -560,6 +560,16 @@ def run(tier, seed):
         k = next((k for k in known if k["match"].get("class") == cls and k["match"].get("subject") in (None, key)), None)
         (known_hits if k else new_violations).append((k, doc, path))
 
+    # ---- clause 1 once more, through the real proc_macro bridge inside a real rustc process (vlib/c20real.py)
+    from . import c20real
+    real_stats, real_docs = c20real.run(seed, {"quick": 40, "thorough": 3000}[tier], shim, roots, texts, goods)
+    for d in real_docs:
+        path = C.replay_path(PROP, C.safe_name("%s-seed%d-%s" % (tier, seed, d["class"])) + ".json")
+        d.update({"seed": seed, "tier": tier, "replay_cmd": "./check replay " + path})
+        json.dump(d, open(path, "w"), indent=1, ensure_ascii=False)
+        k = next((k for k in known if k["match"].get("class") == d["class"]), None)
+        (known_hits if k else new_violations).append((k, d, path))
+
     # ---- clause 2
     vnames = QUICK_VARIANTS if tier == "quick" else list(VARIANTS)
     bins, failed = build_variants(vnames)
@@ -649,6 +659,8 @@ def run(tier, seed):
                  "(grammar from an 11-grammar corpus, one of 5 ill-formed grammars, or a grammar program drawn from the seed by vlib/gramgen.py, one of %d option sets, file or inline source, include_grammar, calling thread) under a seeded "
                  "environment vector (hash seed, clock, environment size, manifest root, cwd, short reads / EINTR on the grammar file, heap ballast); every expansion is compared "
                  "with the same expansion alone in a fresh neutral process. distinct_nontrivial = distinct (expansion key, environment class, history prefix, thread) tuples. "
+                 "The same comparison is repeated through the real proc_macro bridge: generated crates with 1-5 derives are expanded by a real nightly rustc (-Zunpretty=expanded) "
+                 "with envshim preloaded, and each module's expansion is compared with the same derive expanded alone in a neutral rustc. "
                  "clause 2: the same seeded operation histories are executed in every option variant of the parsesim runner and compared on verdict, offset and thin pair tree."
                  % len(OPTION_SETS)),
         "samples": samples + ([var_sample] if var_sample else []),
@@ -657,6 +669,7 @@ def run(tier, seed):
         "distinct_expansion_keys": len(keys_seen),
         "reference_processes": sum(p[2].processes for p in gen_phases),
         "generator_builds": {p[0]: p[3] for p in gen_phases},
+        "real_bridge_tier": real_stats,
         "environment_kinds_applied": {k: int(v) for k, v in env_kinds.items()},
         "shim_calls_fired": counters_total,
         "clock_reads_by_generator": counters_total.get("clock", 0),
@@ -670,7 +683,7 @@ def run(tier, seed):
         "variant_runs_dropped_because_a_runner_died": var_runs_lost,
         "real_components": ["pest_typed_generator::derive_typed_parser (whole generator)", "pest_meta parser/validator/optimizer", "std HashMap/File/env", "rustc + pest_typed_derive for the variant builds",
                             "pest_typed runtime in the variant runners"],
-        "stubbed_components": ["kernel entropy (getrandom), wall clock, read(2) chunking via envshim.so", "proc_macro bridge: proc_macro2 fallback in gensim", "ASLR (off)"],
+        "stubbed_components": ["kernel entropy (getrandom), wall clock, pid, CPU count, read(2) chunking via envshim.so", "proc_macro bridge: proc_macro2 fallback in gensim (the real-bridge tier runs the derive inside a real nightly rustc)", "ASLR (off; not in the rustc tier)"],
         "clauses": {"same code on every run / in separate processes": "decided by the environment+history simulation (J1, J2)",
                     "options change neither acceptance nor offsets nor pair tree; recursive grammars compile with reduced boxing": "configuration swarm over a fixed corpus (J3, J4); no fault or schedule dimension"},
     }
@@ -713,6 +726,11 @@ def replay(path):
         hit = [f for f in found if f[0] == doc["class"] and f[1] == doc["subject"]]
         if hit:
             C.say("first difference: %s" % json.dumps(describe_difference(binary, shim, roots, refs, run, doc["subject"], hit[0][2]))[:800])
+    elif kind == "rustc-run":
+        from . import c20real
+        shim = build_envshim()
+        roots, texts, goods, bads = prepare_roots()
+        hit = c20real.replay(doc, shim, roots, texts)
     elif kind == "variant-build":
         bins, failed = build_variants(["default", doc["variant"]])
         hit = doc["variant"] in failed and "default" not in failed
